@@ -543,14 +543,30 @@ theorem cutErr_upstream (k : Nat) (r sf : Bool) :
   · split <;> split <;> rfl
   · intro s; split <;> split <;> simp
 
+theorem dialErr_upstream (ex : Exchange) (t : Bool) :
+    upstreamKind (dialErr ex t) = true ∧ ∀ s, dialErr ex t ≠ .connectRejected s := by
+  unfold dialErr
+  constructor
+  · split
+    · rfl
+    · split <;> rfl
+  · intro s; split
+    · simp
+    · split <;> simp
+
 /-- the error a fault raises is an upstream-fault kind, except for the transport-level CONNECT rejection -/
 theorem faultErr_kind (f : Fault) (ex : Exchange) (k : ErrKind) (h : faultErr f ex = some k) :
     (upstreamKind k = true ∧ ∀ s, k ≠ .connectRejected s) ∨
       (∃ s, k = .connectRejected s ∧ transportConnectRejection f ex = true) := by
   cases f with
   | none => simp [faultErr] at h
-  | dialRefused => simp only [faultErr, Option.some.injEq] at h; subst h; exact Or.inl ⟨rfl, by simp⟩
-  | dialTimeout => simp only [faultErr, Option.some.injEq] at h; subst h; exact Or.inl ⟨rfl, by simp⟩
+  | dialRefused => simp only [faultErr, Option.some.injEq] at h; subst h; exact Or.inl (dialErr_upstream ex false)
+  | dialTimeout => simp only [faultErr, Option.some.injEq] at h; subst h; exact Or.inl (dialErr_upstream ex true)
+  | dialReset op =>
+    simp only [faultErr, resetErr] at h
+    split at h
+    · simp at h
+    · split at h <;> (simp only [Option.some.injEq] at h; subst h; exact Or.inl ⟨rfl, by simp⟩)
   | tls t =>
     simp only [faultErr] at h
     split at h
